@@ -289,7 +289,8 @@ Proof.
     + destruct (Z.ltb_spec 0 0) as [Hc|_]; [lia|]. lia.
     + destruct (indent_position_loop line off 0 0 pad indent) as [w' i'] eqn:Hloop.
       apply br_ip_loop_range in Hloop.
-      assert (Hq : 0 <= 0 + pad /\ 0 <= (if first_non_space_position line 0 <? 0 then 0 else first_non_space_position line 0) <= zlen line).
+      assert (Hq : 0 <= (if first_non_space_position line 0 <? 0 then 0 else first_non_space_position line 0 - pad) + pad /\
+                   (if first_non_space_position line 0 <? 0 then 0 else first_non_space_position line 0 - pad) <= zlen line).
       { destruct (br_fnsp_range line 0) as [Eq|Eq].
         - rewrite Eq. cbn. lia.
         - destruct (Z.ltb_spec (first_non_space_position line 0) 0); lia. }
